@@ -168,6 +168,13 @@ namespace TrRouting
         close(fd);
         return -EBADMSG;
       }
+      catch (const std::exception& e)
+      {
+        // e.g. a transferable node uuid that is not a uuid
+        spdlog::error("-- Error in node cache file -- {}: {}", nodeCacheFileNamePath, e.what());
+        close(fd);
+        return -EINVAL;
+      }
       close(fd);
     }
 
